@@ -60,6 +60,24 @@ def _basis_of(E: Engine, c: ClassInfo) -> str | None:
     return None
 
 
+def _S(E, f, inline=True):
+    from .symutil import S
+
+    return S(E, f, inline)
+
+
+def _unobj_(t):
+    from .symutil import unobj
+
+    return unobj(t)
+
+
+def _show_(t):
+    from .. import sym
+
+    return sym.show(t)
+
+
 def run(E: Engine, rep: Report, tier: str) -> dict:
     P = E.P
     # ------------------------------------------------------------ SCHEMA
@@ -169,6 +187,14 @@ def run(E: Engine, rep: Report, tier: str) -> dict:
             read |= keys
             if keys != {k}:
                 mismatched.append((k, sorted(keys)))
+            # a sequence-valued field keeps the serialised order: a comprehension that rebuilds it iterates the
+            # serialised list itself (iterating the enum and filtering would return the members in enum order)
+            for c_ in [x for x in _sym.subterms(v) if x[0] == "comp" and len(x[3]) == 1]:
+                it_ = c_[3][0][0]
+                while it_[0] == "obj":
+                    it_ = it_[2]
+                order_kept = it_[0] == "idx" and it_[2] == ("const", k)
+                rep.check(order_kept, "TABLE", f"deserializer|RydbergEOM.{k}|order-of-serialised-list-kept", f"rebuilt by mapping over data['{k}']", f"RydbergEOM.{k} is rebuilt by iterating `{_sym.show(it_)[:60]}` instead of the serialised list data['{k}']: the decoded tuple comes out in another order than the original (the decoded device differs from the original)", E.where(dc, l.node))
     rep.check(not mismatched, "TABLE", "deserializer|RydbergEOM-key=field", "every RydbergEOM field is decoded from the key of the same name", f"RydbergEOM fields decoded from other keys: {mismatched}", E.where(dc))
     rep.check(read | set(opt_eom) == {n for n, f in ef.items() if f.init}, "TABLE", "deserializer|RydbergEOM-keys", f"explicit keys {sorted(read)} + optional table = init fields", f"_deserialize_channel reads {sorted(read)} (+{opt_eom}) but RydbergEOM init fields are {sorted(n for n, f in ef.items() if f.init)}", E.where(dc))
 
@@ -228,6 +254,36 @@ def run(E: Engine, rep: Report, tier: str) -> dict:
             kind_ = "with-layout" if any(x == ("name", "layout") for x in conds_) else "without-layout" if any(x == ("not", ("name", "layout")) for x in conds_) else f"path{i_}"
             rep.check(want <= got, "TABLE", f"{fn_name}|{kind_}|every-qubit-key-consumed", f"the returned register depends on {sorted(want)} of every qubit entry",
                       f"{fn_name} ({kind_}): the returned register does not depend on {sorted(want - got)} of the qubit entries (it is built from {sorted(got)} only): the decoded register loses that field (e.g. the qubit IDs fall back to q0, q1, ...)", E.where(f_))
+    # boolean options are stored as Python bools: EmulationConfig.__init__ hands every parameter annotated `bool`
+    # to BackendConfig wrapped in bool(...) (a numpy.bool_ or 0/1 is truthy-equivalent in memory but is not a JSON /
+    # schema boolean, so the configuration could no longer be serialised)
+    ec = E.fn("pulser.backend.config.EmulationConfig.__init__")
+    bool_params = {x.arg for x in ec.node.args.args + ec.node.args.kwonlyargs if x.annotation is not None and ast.unparse(x.annotation) == "bool"}
+    sup = [n for n in ast.walk(ec.node) if isinstance(n, ast.Call) and isinstance(n.func, ast.Attribute) and n.func.attr == "__init__" and isinstance(n.func.value, ast.Call) and (dotted(n.func.value.func) or "") == "super"]
+    if not sup or not bool_params:
+        raise AnalysisError("anchor: EmulationConfig.__init__ -> super().__init__ with boolean parameters not found")
+    for kw in sup[0].keywords:
+        if kw.arg in bool_params:
+            ok_b = isinstance(kw.value, ast.Call) and (dotted(kw.value.func) or "") == "bool" and len(kw.value.args) == 1 and isinstance(kw.value.args[0], ast.Name) and kw.value.args[0].id == kw.arg
+            rep.check(ok_b, "TABLE", f"EmulationConfig.__init__|{kw.arg}|stored-as-bool", f"{kw.arg}=bool({kw.arg})", f"EmulationConfig stores `{kw.arg}` as given (`{norm(kw.value)}`): a truthy non-bool (numpy.bool_, 1) is accepted but is not a JSON/schema boolean, so to_abstract_repr() fails or produces a schema-invalid document", E.where(ec, kw.value))
+    # ----------------------------------- operator representation kept for serialisation: one entry per QuditOp
+    fo = E.fn("pulser_simulation.qutip_op.QutipOperator._from_operator_repr")
+    n_app = 0
+    for l in _S(E, fo).log:
+        if l.kind != "call" or l.target is None or l.target[0] != "attr" or l.target[2] != "append" or not l.value[2] or not l.loops:
+            continue
+        v = _unobj_(l.value[2][0])
+        if v[0] != "tuple" or len(v) != 3:
+            continue
+        inds = _unobj_(v[2])
+        if not (inds[0] == "call" and inds[1] in (("name", "set"), ("name", "tuple"), ("name", "list"), ("name", "frozenset")) and len(inds[2]) == 1):
+            continue
+        n_app += 1
+        src = _unobj_(inds[2][0])
+        per_op = src[0] == "item" and src[1] == ("elem", l.loops[-1], len(l.loops) - 1)
+        rep.check(per_op, "TABLE", "QutipOperator._from_operator_repr|one-kept-entry-per-QuditOp", "the (QuditOp, indices) pair is recorded once per element of the tensor operation", f"the pair kept for serialisation is appended inside a loop over `{_show_(l.loops[-1])[:60]}`, not once per (QuditOp, indices) element: an operator acting on several qudits is written out several times and cannot be decoded (indices already used)", E.where(fo, l.node))
+    if n_app < 1:
+        raise AnalysisError("anchor: the (QuditOp, indices) record of QutipOperator._from_operator_repr was not found")
     # ------------------------------------------------------------ REFLECT
     # class-level private attributes are hooks a base class reads (often reflectively, with a default that hides a
     # misspelt name: getattr(cls, "_operator_type", OperatorRepr)); each one must be read under exactly that name
